@@ -250,13 +250,13 @@ structure DType where
 
 def bTest : Bytes := [116, 101, 115, 116]
 
-def Exclusion.hasPipe (e : Exclusion) : Bool := e.g.contains cPipe || e.a.contains cPipe
+def hasPipe (e : Exclusion) : Bool := e.g.contains cPipe || e.a.contains cPipe
 
 /-- the loop of `Dependency.ExclusionsString` (`first` is its flag) -/
 def exclusionsLoop : List Exclusion → Bool → Bytes
   | [], _ => []
   | e :: rest, first =>
-    if e.hasPipe then exclusionsLoop rest first          -- Skip this exclusion if it contains a pipe.
+    if hasPipe e then exclusionsLoop rest first          -- Skip this exclusion if it contains a pipe.
     else (if first then [] else [cPipe]) ++ (e.g ++ cColon :: e.a) ++ exclusionsLoop rest false
 
 def exclusionsString (ex : List Exclusion) : Bytes := exclusionsLoop ex true
@@ -371,7 +371,7 @@ def view (k : Key) (p : Project) : Project :=
     mgmt := p.mgmt.map viewDep
     profiles := p.profiles.map viewProfile }
 
-def sameName (k k' : Key) : Bool := apiName k.g k.a == apiName k'.g k'.a && k.v == k'.v
+def sameName (k k' : Key) : Bool := decide (apiName k.g k.a = apiName k'.g k'.a ∧ k.v = k'.v)
 
 def viewGet (L : Lineage) (k : Key) : Option Project :=
   ((L.root :: L.repo).find? fun p => sameName p.storeKey k).map (view k)
